@@ -352,6 +352,8 @@ type Unpub struct {
 	// a second one, Delete/DeleteAll remove whatever is pending for the suffix (the semantics of stores that index
 	// pending operations by DID).
 	PerSuffix bool
+	// DeleteAllN counts the clean-ups after a stored transaction (DeleteAll calls that went through).
+	DeleteAllN int
 }
 
 // NewUnpub creates an empty unpublished store.
@@ -424,6 +426,8 @@ func (u *Unpub) DeleteAll(ops []*operation.AnchoredOperation) error {
 	if err := u.fault("DeleteAll"); err != nil {
 		return err
 	}
+
+	u.DeleteAllN++
 
 	for _, op := range ops {
 		u.remove(op)
